@@ -20,8 +20,15 @@ func verifDagcborEncode(n datamodel.Node, w io.Writer) error {
 	return nil
 }
 
+// verifCaptureEncode switches the native seam to the recording encoder (only inside
+// VerifC06_NodePersistedAsRepresentation; every other native run keeps the real encoder).
+var verifCaptureEncode bool
+
 func verifEncodeSeam(real func(datamodel.Node, io.Writer) error) func(datamodel.Node, io.Writer) error {
-	return verifDagcborEncode
+	if verifCaptureEncode {
+		return verifDagcborEncode
+	}
+	return real
 }
 
 // verifTyped is a schema-typed node whose representation is a different node (tuple / renamed
@@ -40,6 +47,8 @@ func (t verifTyped) Representation() datamodel.Node { return t.repr }
 // absent node (so that what is reloaded equals, as DAG-CBOR data, what was recorded).
 // Decided up to the encoder call: the bytes themselves are go-ipld-prime's.
 func VerifC06_NodePersistedAsRepresentation() {
+	verifCaptureEncode = true
+	defer func() { verifCaptureEncode = false }()
 	verifEncoded = nil
 	plain := zz.Node("plain")
 	repr := zz.Node("repr")
